@@ -160,6 +160,10 @@ def replay_crosshair(mod, cond, tier, args, excludes=()):
     except BaseException as e:
         if allowed and isinstance(e, allowed):
             out.update(reproduced=False, reason="declared exception %r" % (e,)); return out
+        if type(e).__name__ == "BoundTooSmall":
+            # unwinding assertion of the whole-run driver: the bound of the harness is too small for this run -
+            # machinery trouble (exit 2), never a violation of the property
+            out.update(reproduced=False, reason="harness bound too small (unwinding assertion): %s" % (e,)); return out
         out.update(reproduced=True, reason="exception %s: %s" % (type(e).__name__, e),
                    traceback=traceback.format_exc()[-2000:]); return out
     env["_"] = ret; env["__return__"] = ret
